@@ -611,9 +611,7 @@ func genC04(seed uint64, tier string, outdir string) *Report {
 				y.stepWithdraw()
 			}
 		}
-		for y.relayed < len(y.events) {
-			y.stepRelay(y.relayed)
-		}
+		y.relayAll()
 		tree, _, _ := y.commitAndClaim()
 		rep.Ops += len(y.c1.Ops) + len(y.sc.Case.Ops)
 		rep.Hist("case:hook-withdrawals")
